@@ -125,6 +125,8 @@ class TlcResult:
 
 def _stage(scratch, spec_dirs, extra_files=None):
     for d in spec_dirs:
+        if not os.path.isdir(d):
+            continue
         for f in os.listdir(d):
             if f.endswith(".tla") or f.endswith(".cfg"):
                 shutil.copyfile(os.path.join(d, f), os.path.join(scratch, f))
